@@ -24,9 +24,13 @@ package file
 //@   loop#0 invariant sliceptr(tags) == 0 || fresh(sliceptr(tags))
 
 //@ func (tagItems).override
+//@   requires [C06 merge.sep] sliceptr(t) != sliceptr(inTags) || len(inTags) == 0
 //@   modifies elems(inTags)
-//@   loop#0 invariant (sliceptr(overridEd) == 0 || fresh(sliceptr(overridEd))) && sliceptr(inTags) == sliceptr(inTags$0)
-//@   loop#1 invariant (sliceptr(overridEd) == 0 || fresh(sliceptr(overridEd))) && sliceptr(inTags) == sliceptr(inTags$0)
+//@   loop#0 invariant (sliceptr(overridEd) == 0 || fresh(sliceptr(overridEd))) && sliceptr(inTags) == sliceptr(inTags$0) && len(inTags) <= len(inTags$0)
+//@   loop#1 invariant (sliceptr(overridEd) == 0 || fresh(sliceptr(overridEd))) && sliceptr(inTags) == sliceptr(inTags$0) && len(inTags) <= len(inTags$0)
+//@   loop#0 invariant [C06 merge.keys] len(overridEd) == rangeindex + 1 && forall(k Int :: {overridEd[k]} 0 <= k && k <= rangeindex ==> overridEd[k].key == t[k].key)
+//@   loop#1 invariant [C06 merge.keys] len(overridEd) == i && 0 <= i && i < len(t) && forall(k Int :: {overridEd[k]} 0 <= k && k < i ==> overridEd[k].key == t[k].key)
+//@   ensures [C06 merge.keys] len(result) >= len(t) && forall(k Int :: {result[k]} 0 <= k && k < len(t) ==> result[k].key == t[k].key)
 
 // what FindStringSubmatch returns for rComment = `@tag (.*)`: the text after the first "@tag " (trusted: the regexp's
 // submatch semantics are not modelled; the bounded stand-ins of C06/C07 exercise it on real files)
@@ -40,6 +44,7 @@ package file
 //@   modifies nothing
 //@   ensures [C06 C19 inject.len] len(injected) >= area.Start - 1 + (len(contents) - (area.End - 1))
 //@   ensures [C06 inject.prefix] forall(i Int :: {injected[i]} 0 <= i && i < area.Start - 1 ==> injected[i] == contents[i])
+//@   ensures [C06 C19 inject.suffix] forall(x Int :: {contents[x]} area.End - 1 <= x && x < len(contents) ==> injected[x + (len(injected) - len(contents))] == contents[x])
 //@   ensures fresh(sliceptr(injected)) || injected == nil
 
 //@ pred fileN() = len(fs.content(inputPath))
@@ -70,10 +75,16 @@ package file
 //@ func WriteFile
 //@   requires [C06 C19 write.areas] areas.ok(areas, len(fs.content(inputPath)))
 //@   modifies fs.content(inputPath)
+//@   ensures [C06 C19 write.head.file] err == nil && len(areas) > 0 ==> forall(x Int :: {byteAt(fs.content(inputPath), x)} 0 <= x && x < areas[0].Start - 1 ==> byteAt(fs.content(inputPath), x) == byteAt(old(fs.content(inputPath)), x))
+//@   ensures [C06 C19 write.tail.file] err == nil && len(areas) > 0 ==> forall(x Int :: {byteAt(old(fs.content(inputPath)), x)} areas[len(areas) - 1].End - 1 <= x && x < len(old(fs.content(inputPath))) ==> byteAt(fs.content(inputPath), x + (len(fs.content(inputPath)) - len(old(fs.content(inputPath))))) == byteAt(old(fs.content(inputPath)), x))
 //@   ensures [C07 C19 write.noarea] err == nil && len(areas) == 0 ==> fs.content(inputPath) == old(fs.content(inputPath))
 //@   loop#0 invariant 0 <= i && i <= len(areas) && (sliceptr(contents) == 0 || fresh(sliceptr(contents)))
 //@   loop#0 invariant forall(j Int :: {areas[j]} 0 <= j && j < len(areas) - i ==> area.in(areas[j], len(contents)))
 //@   loop#0 invariant i == 0 ==> unsafeView(contents) == old(fs.content(inputPath))
+//@   loop#0 invariant [C06 C19 write.head] forall(x Int :: {contents[x]} 0 <= x && x < ite(i == 0, len(contents$pre), areas[len(areas) - i].Start - 1) ==> contents[x] == contents$pre[x])
+//@   loop#0 invariant [C06 C19 write.head] i == 0 ==> len(contents) == len(contents$pre)
+//@   loop#0 invariant [C06 C19 write.tail] i >= 1 ==> len(contents) - (areas[len(areas) - i].Start - 1) >= len(contents$pre) - (areas[len(areas) - 1].End - 1)
+//@   loop#0 invariant [C06 C19 write.tail] i >= 1 ==> forall(x Int :: {contents$pre[x]} areas[len(areas) - 1].End - 1 <= x && x < len(contents$pre) ==> contents[x + (len(contents) - len(contents$pre))] == contents$pre[x])
 //@   loop#0 decreases len(areas) - i
 
 //@ func HandlePath
